@@ -1,9 +1,11 @@
 //! C11 — RFC 2822 output round-trips and obsolete forms are read as specified.
 //!
-//! Correspondence (implementation vs the Lean model, ops `r2.write`, `r2.rt`, `r2.parse`):
+//! Correspondence (implementation vs the Lean model, ops `r2.write`, `r2.rt`, `r2.parse`, `r2.item`):
 //!   * renderings: `DateTime<FixedOffset>::to_rfc2822` on boundary-directed (date, time, offset) values
 //!     (wall-clock years around 0 and 9999, leap seconds, every whole-minute offset class, some
-//!     offsets with seconds), text compared and re-parsed;
+//!     offsets with seconds), text compared and re-parsed; the same value through the item form
+//!     `format_with_items([Fixed::RFC2822])` (text / `fmt::Error`, op `r2.item`, and a direct oracle
+//!     against the independently formatted text);
 //!   * grammar-generated strings: every optional part of the adapted RFC 2822 grammar toggled
 //!     (day-name, one/two digit day, 2/3/4/5+ digit years, seconds, numeric / named / military zones,
 //!     runs of the 25 Unicode white-space code points, nested and escaped comments to depth 4),
@@ -470,6 +472,36 @@ pub fn run(c: &mut Ctx) {
                 (Err(()), Ok(Err(()))) | (Err(()), Err(())) => {}
                 _ => c.fail("the RFC 2822 item renders differently from to_rfc2822", &format!("{args}: to_rfc2822 {:?} item {:?}", text, via)),
             }
+            // ... and against the MODEL of `format_with_items([RFC2822])` (op `r2.item`), not only crate vs crate
+            c.op(
+                &format!("r2.item {}", args),
+                &match &via {
+                    Ok(Ok(s)) => hex(s.as_bytes()),
+                    Ok(Err(())) => "err".into(),
+                    Err(()) => "panic".into(),
+                },
+            );
+            // ... and against the property itself: the documented text of the wall clock (independent
+            // formatter), `fmt::Error` — never a panic — when the wall-clock year is outside 0-9999
+            let doc = doc_text(
+                day_num(d.year() as i64, d.month() as i64, d.day() as i64),
+                t.num_seconds_from_midnight() as i64,
+                t.nanosecond() >= 1_000_000_000,
+                off as i64,
+            );
+            match (&via, &doc) {
+                (Err(()), _) => c.fail("item form: the RFC 2822 item panicked", &format!("{:?} off {}", utc, off)),
+                (Ok(Ok(s)), None) => c.fail("item form: text for a wall-clock year outside 0-9999", &format!("{:?} off {} -> {:?}", utc, off, s)),
+                (Ok(Err(())), Some(w)) => c.fail("item form: fmt::Error for a wall-clock year in 0-9999", &format!("{:?} off {} (want {:?})", utc, off, w)),
+                (Ok(Ok(s)), Some(w)) if off % 60 == 0 && s != w => {
+                    c.fail("item form: text differs from `Www, D Mon YYYY HH:MM:SS +HHMM` of the wall clock", &format!("{:?} off {}: {:?} vs {:?}", utc, off, s, w))
+                }
+                (Ok(Ok(s)), Some(w)) if off % 60 != 0 && s[..s.len().saturating_sub(5)] != w[..w.len().saturating_sub(5)] => {
+                    c.fail("item form: text before the zone differs from `Www, D Mon YYYY HH:MM:SS ` of the wall clock", &format!("{:?} off {}: {:?} vs {:?}", utc, off, s, w))
+                }
+                _ => {}
+            }
+            c.count(if doc.is_some() { "render:item-form year0-9999" } else { "render:item-form year-outside (fmt::Error)" });
         }
         let secs = t.num_seconds_from_midnight() as i64;
         let leap = t.nanosecond() >= 1_000_000_000;
